@@ -289,6 +289,19 @@ def x_vout_int(m, a, tag, k):
     m.outs.append((m.cstr(tag), sg32(k), sg32(a) if isinstance(a, int) else a))
 
 
+def x_vpi(m):
+    """harness/vpi.h: M_PI as an opaque positive constant (the identities checked with it are formal: they must hold for any value)"""
+    import math
+    if m.mode == 'float':
+        return math.pi
+    t = sym('pi', 'R')
+    if 'pi' not in m.syms:
+        m.syms['pi'] = t
+        m.assume(mk_cmp('gt', t, Fraction(3)))
+        m.assume(mk_cmp('lt', t, Fraction(4)))
+    return t
+
+
 def x_vis_symbolic(m):
     return 0 if m.mode == 'float' else 1
 
@@ -714,7 +727,7 @@ def base_ext():
         '@vassume_le': x_vassume_le, '@vassume_lt': x_vassume_lt,
         '@vcheck_eq': x_vcheck_eq, '@vcheck_le': x_vcheck_le, '@vcheck_lt': x_vcheck_lt, '@vcheck_bits_eq': x_vcheck_bits_eq,
         '@vcheck_true': x_vcheck_true, '@vcheck_indep': x_vcheck_indep, '@vcheck_sat': x_vcheck_sat,
-        '@vreach': x_vreach, '@vrace_begin': x_noop, '@vcheck_deriv': x_vcheck_deriv, '@vdiff': x_vdiff, '@vcheck_eq_fd': x_vcheck_eq_fd, '@vout': x_vout, '@vout_int': x_vout_int, '@vis_symbolic': x_vis_symbolic, '@vset_threads': x_vset_threads,
+        '@vreach': x_vreach, '@vrace_begin': x_noop, '@vcheck_deriv': x_vcheck_deriv, '@vdiff': x_vdiff, '@vcheck_eq_fd': x_vcheck_eq_fd, '@vout': x_vout, '@vout_int': x_vout_int, '@vis_symbolic': x_vis_symbolic, '@vpi': x_vpi, '@vset_threads': x_vset_threads,
         '@llvm.fabs.f64': x_fabs, '@fabs': x_fabs, '@llvm.fmuladd.f64': x_fmuladd,
         '@llvm.floor.f64': x_floor, '@floor': x_floor, '@llvm.ceil.f64': x_ceil, '@ceil': x_ceil,
         '@llvm.minnum.f64': x_minmax('min'), '@llvm.maxnum.f64': x_minmax('max'), '@fmin': x_minmax('min'), '@fmax': x_minmax('max'),
